@@ -160,6 +160,8 @@ class Cluster(object):
             if i<Nvac:
                 if i == 0: r += (-1,)  # add the "vacancy" indexing
                 else: r += (r[0],)  # add the native chemistry
+            elif transition and i < 2:
+                r += (-2,)  # the two ends of a transition are not ordinary sites of the cluster
             hashcache ^= hash(r + shiftpos)
             if r not in self.__equalitymap__:
                 self.__equalitymap__[r] = set([shiftpos])
